@@ -218,7 +218,8 @@ Call(lim, tl) ==
                  inAcc, cRecv, cEof, pwDone, viol, sanity>>
 
 \* hasOut/hasErr: the returned option is Some; out/err: its content (<<>> when None)
-Ret(kind, hasOut, out, hasErr, err) ==
+\* textOk: for the text-returning variant, the strings equal the lossy UTF-8 decoding of the returned bytes
+Ret(kind, hasOut, out, hasErr, err, textOk) ==
   /\ inCall
   /\ inCall' = FALSE
   /\ LET r == [o \in Outs |-> IF o = "out" THEN out ELSE err]
@@ -231,6 +232,7 @@ Ret(kind, hasOut, out, hasErr, err) ==
      /\ delivered' = nd
      /\ viol' = viol
           \cup V(kind # "panic", "C01_panic")
+          \cup V(textOk, "C02_text_is_lossy_decoding_of_the_bytes")
           \cup V(kind # "panic" => \A o \in Outs : has[o] = (o \in piped), "C02_absent_iff_not_piped")
           \cup V(\A o \in Outs : IsPrefixOf(nd[o], written[o]), "C02_out_exact")
           \* C04: the same under a time limit, across timed-out and resumed reads
